@@ -1024,6 +1024,53 @@ def tables_group():
         g.report["levelStore"] = "ok"
     except Exception as e:  # noqa: BLE001
         g.report["levelStore"] = "FAILED: %r" % (e,)
+    # C14: statement structure of the serial and parallel drivers (canonical text, docstrings and logging dropped)
+    try:
+        itree2 = ast.parse(open(os.path.join(REPO_SRC, "interface.py")).read())
+
+        def body_lines(fn):
+            out = []
+
+            def rec(body, depth):
+                for st in body:
+                    if isinstance(st, ast.Expr) and isinstance(st.value, ast.Constant):
+                        continue
+                    if isinstance(st, ast.Expr) and isinstance(st.value, ast.Call) and ast.unparse(st.value.func).startswith("logger."):
+                        continue
+                    if isinstance(st, (ast.If, ast.For, ast.With, ast.While, ast.Try)):
+                        head = ast.unparse(st).split("\n")[0]
+                        out.append("  " * depth + head)
+                        rec(st.body, depth + 1)
+                        if getattr(st, "orelse", None):
+                            out.append("  " * depth + "else:")
+                            rec(st.orelse, depth + 1)
+                    else:
+                        out.append("  " * depth + ast.unparse(st).replace("\n", " "))
+            rec(fn.body, 0)
+            return out
+        for name in ("run_bldfm_timeseries", "run_bldfm_multitower", "_worker_single", "_worker_timeseries", "run_bldfm_parallel", "_make_cache"):
+            fn = [n for n in ast.walk(itree2) if isinstance(n, ast.FunctionDef) and n.name == name][0]
+            lines.append("def driver_%s : List String := %s" % (name.strip("_"), lean_strs(body_lines(fn))))
+        g.report["driverTables"] = "ok"
+    except Exception as e:  # noqa: BLE001
+        g.report["driverTables"] = "FAILED: %r" % (e,)
+    # C11 / C06: the array plumbing of the solver (slices, pads, shifts, transforms, crop), as text
+    try:
+        stree2 = ast.parse(open(os.path.join(REPO_SRC, "solver.py")).read())
+        sfn2 = [n for n in ast.walk(stree2) if isinstance(n, ast.FunctionDef) and n.name == "steady_state_transport_solver"][0]
+        plumb = []
+        for n in ast.walk(sfn2):
+            if isinstance(n, ast.Assign):
+                t = ast.unparse(n.targets[0])
+                v = ast.unparse(n.value)
+                if any(k in v for k in ("fftshift(", "ifftshift(", "np.pad(", "fft2(", "ifft2(", "np.linspace(", "np.meshgrid(", "np.squeeze(")) or \
+                        t in ("conc", "flx", "pad_width", "dlx, dly", "tfftq0", "msk[0, 0]", "tfftp[0, 0, 0]", "tfftq[:, 0, 0]") or t.startswith("tfftq0"):
+                    plumb.append((t, v))
+        plumb.sort()
+        lines.append("def solverPlumbing : List (String × String) := [%s]" % ", ".join('("%s", "%s")' % (a.replace('"', "'"), b.replace('"', "'")) for a, b in plumb))
+        g.report["solverPlumbing"] = "ok"
+    except Exception as e:  # noqa: BLE001
+        g.report["solverPlumbing"] = "FAILED: %r" % (e,)
     # C12: process-global mutable state on the solve path (module-level singletons, `global` statements,
     # mutable closure cells and mutable default arguments)
     try:
